@@ -46,6 +46,8 @@ class InstanceCapMode(BaseStrategyMode):
 
 
     def _annotate_class_with_stop_condition(self, a_triple):
+        if a_triple[_O].iri in self._instances_dict[a_triple[_S].iri]:
+            return  # A re-stated typing triple adds nothing
         self._instances_dict[a_triple[_S].iri].append(a_triple[_O].iri)
         if a_triple[_O].iri not in self._class_counts:
             self._class_counts[a_triple[_O].iri] = 0
@@ -56,6 +58,8 @@ class InstanceCapMode(BaseStrategyMode):
             raise InstancesCapException()
 
     def _annotate_class_with_no_stop_condition(self, a_triple):
+        if a_triple[_O].iri in self._instances_dict[a_triple[_S].iri]:
+            return  # A re-stated typing triple adds nothing
         self._instances_dict[a_triple[_S].iri].append(a_triple[_O].iri)
         if a_triple[_O].iri not in self._class_counts:
             self._class_counts[a_triple[_O].iri] = 0
